@@ -71,13 +71,18 @@ def _summ(err):
     ls = [l for l in err.strip().split("\n") if l.strip()]
     return (ls[0][:300] if ls else "")
 
-def run_stream(cmd, cases, timeout=120, jobs=16, env=None):
-    """parallel over chunks; order preserved"""
+def run_stream(cmd, cases, timeout=120, jobs=16, env=None, per_job=None):
+    """parallel over chunks; order preserved.  per_job (heavy cases, e.g. the soak histories): chunks of that many
+    cases handed out dynamically to `jobs` workers instead of one contiguous slice of >= 200 cases per worker"""
     if not cases:
         return []
-    n = max(1, min(jobs, (len(cases) + 199) // 200))
-    size = (len(cases) + n - 1) // n
-    chunks = [cases[k:k + size] for k in range(0, len(cases), size)]
+    if per_job:
+        chunks = [cases[k:k + per_job] for k in range(0, len(cases), per_job)]
+        n = max(1, min(jobs, len(chunks)))
+    else:
+        n = max(1, min(jobs, (len(cases) + 199) // 200))
+        size = (len(cases) + n - 1) // n
+        chunks = [cases[k:k + size] for k in range(0, len(cases), size)]
     with ThreadPoolExecutor(n) as ex:
         res = list(ex.map(lambda c: _run_lines(cmd, c, timeout, env), chunks))
     out = []
@@ -91,8 +96,8 @@ def compare(cases, impl_lines, model_lines):
     for i, c in enumerate(cases):
         a = impl_lines[i] if i < len(impl_lines) else "MISSING"
         b = model_lines[i] if i < len(model_lines) else "MISSING"
-        if b == "STACKOVERFLOW":
-            continue   # the extracted model ran out of native stack on this case: inconclusive, not a disagreement
+        if b == "STACKOVERFLOW" or b == "HANG":
+            continue   # the extracted model ran out of native stack / of its time budget on this case: inconclusive, not a disagreement
         if a != b:
             dis.append((i, c, a, b))
     return dis
